@@ -317,7 +317,7 @@ def check_state(xml_bytes, xlsx_bytes, kind, data, ctx, rec=None, known=None):
         stats["max_col"] = max(stats["max_col"], c1, c2)
         return sh, r1, c1, r2, c2
 
-    def check_ref(ref, what, n_levels_expected=None):
+    def check_ref(ref, what):
         """structure + cache-vs-cell for one reference; -> (sheet, r1, c1, rows, cols)"""
         sh, r1, c1, r2, c2 = resolve(ref, what)
         if ref.pt_count is None:
@@ -764,7 +764,6 @@ def run_case(case, rec=None, known=None):
     start = case["start"]
     mods = case.get("mods") or {}
     datas = case["datas"]
-    step_tag = []
     di = 0
 
     def note(i, step, info):
